@@ -19,6 +19,7 @@ import (
 
 	"github.com/gopcua/opcua/debug"
 	"github.com/gopcua/opcua/errors"
+	"github.com/gopcua/opcua/simhook"
 	"github.com/gopcua/opcua/ua"
 	"github.com/gopcua/opcua/uacp"
 	"github.com/gopcua/opcua/uapolicy"
@@ -287,6 +288,7 @@ func (s *SecureChannel) dispatcher() {
 				debug.Printf("uasc %d/%d: recv %T", s.c.ID(), msg.RequestID, msg.body)
 			}
 
+			simhook.Yield("uasc.dispatcher.beforePop")
 			ch, ok := s.popHandler(msg.RequestID)
 
 			if !ok {
@@ -300,6 +302,7 @@ func (s *SecureChannel) dispatcher() {
 			}
 
 			debug.Printf("uasc %d/%d: sending %T to handler", s.c.ID(), msg.RequestID, msg.body)
+			simhook.Yield("uasc.dispatcher.beforeDeliver")
 			select {
 			case ch <- msg:
 			default:
@@ -633,6 +636,7 @@ func (s *SecureChannel) open(ctx context.Context, instance *channelInstance, req
 		// be raised on the server? can the sequenceNumber be as "global" as the request ID?
 		s.openingInstance.sequenceNumber = instance.sequenceNumber
 		s.openingInstance.secureChannelID = instance.secureChannelID
+		simhook.Yield("uasc.open.afterSeqCopy")
 	}
 
 	// trigger cleanup after we are all done
@@ -783,6 +787,7 @@ func (s *SecureChannel) handleOpenSecureChannelRequest(reqID uint32, svc ua.Requ
 
 	instance := s.openingInstance
 	instance.algo = algo
+	simhook.Yield("uasc.handleOpen.afterAsymAlgo")
 	instance.sc.requestID = req.RequestHeader.RequestHandle // todo(fs): is this correct?
 
 	nonce := make([]byte, instance.algo.NonceLength())
@@ -812,6 +817,7 @@ func (s *SecureChannel) handleOpenSecureChannelRequest(reqID uint32, svc ua.Requ
 		return err
 	}
 
+	simhook.Yield("uasc.handleOpen.beforeSymAlgo")
 	instance.algo, err = uapolicy.Symmetric(s.cfg.SecurityPolicyURI, nonce, req.ClientNonce)
 	if err != nil {
 		return err
@@ -850,15 +856,18 @@ func (s *SecureChannel) scheduleRenewal(instance *channelInstance) {
 	case <-t.C:
 	}
 
+	simhook.Yield("uasc.renewTimerFired")
 	// TODO: where should this error go?
 	_ = s.renew(instance)
 }
 
 func (s *SecureChannel) renew(instance *channelInstance) error {
 	// lock ensure no one else renews this at the same time
+	simhook.Yield("uasc.renew.enter")
 	s.reqLocker.lock()
 	defer s.reqLocker.unlock()
 	s.pendingReq.Wait()
+	simhook.Yield("uasc.renew.afterWait")
 	instance.Lock()
 	defer instance.Unlock()
 
@@ -882,6 +891,7 @@ func (s *SecureChannel) scheduleExpiration(instance *channelInstance) {
 	case <-t.C:
 	}
 
+	simhook.Yield("uasc.expireTimerFired")
 	s.instancesMu.Lock()
 	defer s.instancesMu.Unlock()
 
@@ -932,9 +942,11 @@ func (s *SecureChannel) sendRequestWithTimeout(
 
 	select {
 	case <-ctx.Done():
+		simhook.Yield("uasc.request.ctxDone")
 		s.popHandler(reqID)
 		return ctx.Err()
 	case <-s.disconnected:
+		simhook.Yield("uasc.request.disconnected")
 		s.popHandler(reqID)
 		return io.EOF
 	case msg := <-ch:
@@ -946,6 +958,7 @@ func (s *SecureChannel) sendRequestWithTimeout(
 		}
 		return h(msg.Response())
 	case <-timer.C:
+		simhook.Yield("uasc.request.timeout")
 		s.popHandler(reqID)
 		return ua.StatusBadTimeout
 	}
@@ -978,10 +991,12 @@ func (s *SecureChannel) SendRequest(ctx context.Context, req ua.Request, authTok
 
 func (s *SecureChannel) SendRequestWithTimeout(ctx context.Context, req ua.Request, authToken *ua.NodeID, timeout time.Duration, h ResponseHandler) error {
 	s.reqLocker.waitIfLock()
+	simhook.Yield("uasc.send.afterGate")
 	active, err := s.getActiveChannelInstance()
 	if err != nil {
 		return err
 	}
+	simhook.Yield("uasc.send.afterActive")
 
 	return s.sendRequestWithTimeout(ctx, req, s.nextRequestID(), active, authToken, timeout, h)
 }
